@@ -67,6 +67,7 @@ class Recorder:
     def __init__(self):
         self.events = []
         self.lock = threading.Lock()
+        self.frozen = False
         self._mids = {}
         self._keep = []
         self.run_ord = {}        # run_start uid -> ordinal
@@ -78,7 +79,11 @@ class Recorder:
 
     def ev(self, k, s1="", s2="", s3="", n1=0, n2=0, s4=""):
         with self.lock:
+            if self.frozen:
+                return      # after a `hang` the execution is torn down by the harness: nothing of that is the engine's behaviour
             self.events.append([k, str(s1), str(s2), str(s3), str(s4), int(n1), int(n2)])
+            if k == "hang":
+                self.frozen = True
 
     # ---- hooks ----
     def msg_hook(self, msg):
